@@ -84,6 +84,10 @@ func CheckAlgorithmFitsKey(alg jwa.SignatureAlgorithm, key interface{}) error {
 	case rsa.PublicKey, *rsa.PublicKey:
 		expected = []jwa.SignatureAlgorithm{jwa.PS256, jwa.PS384, jwa.PS512, jwa.RS256, jwa.RS384, jwa.RS512}
 	case ed25519.PublicKey:
+		// ed25519.Verify panics when given a public key of another length (a JWK with a malformed 'x' yields one)
+		if len(k) != ed25519.PublicKeySize {
+			return fmt.Errorf("invalid Ed25519 public key length: %d", len(k))
+		}
 		expected = []jwa.SignatureAlgorithm{jwa.EdDSA}
 	default:
 		return nil
